@@ -73,6 +73,8 @@ VARIABLES
   clearOwed,                      \* C04/C15: values owed an exit by the running Clear
   gets,                           \* number of Get calls since creation / last Clear
   dropped,                        \* number of new-key Sets refused because the buffer was full
+  lowered,                        \* some overwrite lowered an accounted cost (coverage goals)
+  swept0,                         \* hashes removed by the sweep while their accounted cost was 0 (coverage goals)
   lastUpd,                        \* expirations replaced by the latest in-place overwrite: [old, new] (coverage goals)
   clrOverlap,                     \* C15: some other call overlapped the running Clear
   raised,                         \* C03: some overwrite raised an accounted cost or MaxCost was lowered
@@ -81,7 +83,7 @@ VARIABLES
 implVars == <<store, em, lastCleaned, pol, used, maxCost, door, cnt, buf, sendq, apc, areg, sweepQ,
               sweepNow, pc, creg, now, tickPending, running, stopq, closed, met>>
 histVars == <<nextVal, ops, exitCnt, evictCnt, rejectCnt, accepted, refused, valKey, delOblig,
-              waitCover, mustMiss, clearOwed, gets, dropped, lastUpd, clrOverlap, raised, bad>>
+              waitCover, mustMiss, clearOwed, gets, dropped, lowered, swept0, lastUpd, clrOverlap, raised, bad>>
 vars == <<implVars, histVars>>
 
 ZeroMet == [hit |-> 0, miss |-> 0, keyAdd |-> 0, keyUpdate |-> 0, keyEvict |-> 0, costAdd |-> 0,
@@ -112,7 +114,7 @@ Init ==
   /\ exitCnt = [v \in Vals |-> 0] /\ evictCnt = [v \in Vals |-> 0] /\ rejectCnt = [v \in Vals |-> 0]
   /\ accepted = {} /\ refused = {} /\ valKey = [v \in Vals |-> 0]
   /\ delOblig = {} /\ waitCover = [c \in Clients |-> {}] /\ mustMiss = {}
-  /\ clearOwed = [c \in Clients |-> {}] /\ gets = 0 /\ dropped = 0 /\ lastUpd = [old |-> 0, new |-> 0] /\ clrOverlap = FALSE /\ raised = FALSE /\ bad = {}
+  /\ clearOwed = [c \in Clients |-> {}] /\ gets = 0 /\ dropped = 0 /\ lowered = FALSE /\ swept0 = {} /\ lastUpd = [old |-> 0, new |-> 0] /\ clrOverlap = FALSE /\ raised = FALSE /\ bad = {}
 
 (* ------------------------------------------------------------------------------------------ *)
 (* helpers                                                                                      *)
@@ -169,7 +171,7 @@ SetBegin(c, k, cost, ttl) ==      \* clock read, store.Update critical section, 
   /\ clrOverlap' = (clrOverlap \/ InClear)
   /\ UNCHANGED <<lastCleaned, pol, used, maxCost, door, cnt, buf, sendq, apc, areg, sweepQ, sweepNow, now, 
                  tickPending, running, stopq, closed, met, evictCnt, rejectCnt, accepted, refused, 
-                 clearOwed, gets, dropped, raised, bad>>
+                 clearOwed, gets, dropped, lowered, swept0, raised, bad>>
 
 SetSend(c) ==                     \* select { case c.setBuf <- i: ... default: ... }
   /\ pc[c] = "set_send"
@@ -185,8 +187,8 @@ SetSend(c) ==                     \* select { case c.setBuf <- i: ... default: .
   /\ pc' = [pc EXCEPT ![c] = "idle"]
   /\ UNCHANGED <<store, em, lastCleaned, pol, used, maxCost, door, cnt, sendq, apc, areg, sweepQ, 
                  sweepNow, creg, now, tickPending, running, stopq, closed, nextVal, ops, exitCnt, 
-                 evictCnt, rejectCnt, valKey, delOblig, waitCover, mustMiss, clearOwed, gets, lastUpd, 
-                 clrOverlap, raised, bad>>
+                 evictCnt, rejectCnt, valKey, delOblig, waitCover, mustMiss, clearOwed, gets, lowered, 
+                 swept0, lastUpd, clrOverlap, raised, bad>>
 
 (* ------------------------------------------------------------------------------------------ *)
 (* Del                                                                                          *)
@@ -205,8 +207,8 @@ DelBegin(c, k) ==                 \* store.Del critical section, onExit(prev)
   /\ clrOverlap' = (clrOverlap \/ InClear)
   /\ UNCHANGED <<lastCleaned, pol, used, maxCost, door, cnt, buf, sendq, apc, areg, sweepQ, sweepNow, now, 
                  tickPending, running, stopq, closed, met, nextVal, evictCnt, rejectCnt, accepted, 
-                 refused, valKey, delOblig, waitCover, mustMiss, clearOwed, gets, dropped, lastUpd, 
-                 raised, bad>>
+                 refused, valKey, delOblig, waitCover, mustMiss, clearOwed, gets, dropped, lowered, 
+                 swept0, lastUpd, raised, bad>>
 
 \* history bookkeeping at the return of Del(k) by client c (a Set of k in flight is concurrent with
 \* the Del and therefore not "earlier")
@@ -226,7 +228,7 @@ DelSend(c) ==                     \* c.setBuf <- tombstone  (blocking send)
   /\ UNCHANGED <<store, em, lastCleaned, pol, used, maxCost, door, cnt, apc, areg, sweepQ, sweepNow, creg, 
                  now, tickPending, running, stopq, closed, met, nextVal, ops, exitCnt, evictCnt, 
                  rejectCnt, accepted, refused, valKey, waitCover, mustMiss, clearOwed, gets, dropped, 
-                 lastUpd, clrOverlap, raised, bad>>
+                 lowered, swept0, lastUpd, clrOverlap, raised, bad>>
 
 (* ------------------------------------------------------------------------------------------ *)
 (* Wait                                                                                         *)
@@ -242,8 +244,8 @@ WaitCall(c) ==                    \* c.setBuf <- marker (blocking), then <-wait
   /\ clrOverlap' = (clrOverlap \/ InClear)
   /\ UNCHANGED <<store, em, lastCleaned, pol, used, maxCost, door, cnt, apc, areg, sweepQ, sweepNow, now, 
                  tickPending, running, stopq, closed, met, nextVal, exitCnt, evictCnt, rejectCnt, 
-                 accepted, refused, valKey, delOblig, mustMiss, clearOwed, gets, dropped, lastUpd, raised, 
-                 bad>>
+                 accepted, refused, valKey, delOblig, mustMiss, clearOwed, gets, dropped, lowered, swept0, 
+                 lastUpd, raised, bad>>
 
 (* A receive from setBuf (by the applier or by Clear's drain loop) removes the head and, as Go's
    channel does, moves the item of the first blocked sender into the buffer in the same step.
@@ -274,8 +276,8 @@ Get(c, k) ==                      \* getBuf.Push (frequency), store.get, hit/mis
   /\ clrOverlap' = (clrOverlap \/ InClear)
   /\ UNCHANGED <<store, em, lastCleaned, pol, used, maxCost, buf, sendq, apc, areg, sweepQ, sweepNow, pc, 
                  creg, now, tickPending, running, stopq, closed, nextVal, exitCnt, evictCnt, rejectCnt, 
-                 accepted, refused, valKey, delOblig, waitCover, mustMiss, clearOwed, dropped, lastUpd, 
-                 raised>>
+                 accepted, refused, valKey, delOblig, waitCover, mustMiss, clearOwed, dropped, lowered, 
+                 swept0, lastUpd, raised>>
 
 GetTTL(c, k) ==                   \* store.Get, store.Expiration, clock (no hook between the reads:
   /\ pc[c] = "idle" /\ ops < MaxOps /\ ~Closing /\ "gettl" \in Ops  \* one step at the grain of the gates)
@@ -283,7 +285,7 @@ GetTTL(c, k) ==                   \* store.Get, store.Expiration, clock (no hook
   /\ UNCHANGED <<store, em, lastCleaned, pol, used, maxCost, door, cnt, buf, sendq, apc, areg, sweepQ, 
                  sweepNow, pc, creg, now, tickPending, running, stopq, closed, met, nextVal, exitCnt, 
                  evictCnt, rejectCnt, accepted, refused, valKey, delOblig, waitCover, mustMiss, clearOwed, 
-                 gets, dropped, lastUpd, clrOverlap, raised, bad>>
+                 gets, dropped, lowered, swept0, lastUpd, clrOverlap, raised, bad>>
 
 Iter(c) ==                        \* IterValues (read only; one step in the model)
   /\ pc[c] = "idle" /\ CanCall /\ "iter" \in Ops
@@ -291,7 +293,7 @@ Iter(c) ==                        \* IterValues (read only; one step in the mode
   /\ UNCHANGED <<store, em, lastCleaned, pol, used, maxCost, door, cnt, buf, sendq, apc, areg, sweepQ, 
                  sweepNow, pc, creg, now, tickPending, running, stopq, closed, met, nextVal, exitCnt, 
                  evictCnt, rejectCnt, accepted, refused, valKey, delOblig, waitCover, mustMiss, clearOwed, 
-                 gets, dropped, lastUpd, clrOverlap, raised, bad>>
+                 gets, dropped, lowered, swept0, lastUpd, clrOverlap, raised, bad>>
 
 SetMaxCost(c, m) ==
   /\ pc[c] = "idle" /\ ops < MaxOps /\ ~Closing /\ "maxcost" \in Ops
@@ -300,7 +302,7 @@ SetMaxCost(c, m) ==
   /\ UNCHANGED <<store, em, lastCleaned, pol, used, door, cnt, buf, sendq, apc, areg, sweepQ, sweepNow, 
                  pc, creg, now, tickPending, running, stopq, closed, met, nextVal, exitCnt, evictCnt, 
                  rejectCnt, accepted, refused, valKey, delOblig, waitCover, mustMiss, clearOwed, gets, 
-                 dropped, lastUpd, clrOverlap, bad>>
+                 dropped, lowered, swept0, lastUpd, clrOverlap, bad>>
 
 (* ------------------------------------------------------------------------------------------ *)
 (* applier: policy.Add                                                                          *)
@@ -354,7 +356,7 @@ AppDequeue ==      \* receive from setBuf, evaluate cost, policy critical sectio
      /\ CASE it.t = "wait" ->
                /\ pc' = [PcAfterRecv(pc) EXCEPT ![it.c] = "idle"]       \* close(marker): Wait returns
                /\ mustMiss' = mustMiss \cup (waitCover[it.c] \cap delOblig)
-               /\ UNCHANGED <<pol, used, met, apc, areg, bad, raised>>
+               /\ UNCHANGED <<pol, used, met, apc, areg, bad, raised, lowered>>
           [] it.t = "new" ->
                \E r \in PolicyAdd(it) :
                  /\ pol' = r.pol /\ used' = r.used /\ met' = r.met
@@ -362,6 +364,7 @@ AppDequeue ==      \* receive from setBuf, evaluate cost, policy critical sectio
                  /\ apc' = IF r.added THEN "new_set" ELSE "new_rej"
                  /\ pc' = PcAfterRecv(pc)
                  /\ raised' = (raised \/ (pol[it.h] # NoCost /\ it.cost > pol[it.h]))
+                 /\ lowered' = (lowered \/ (pol[it.h] # NoCost /\ it.cost < pol[it.h]))
                  /\ bad' = bad \cup Flag(r.added /\ r.used > maxCost, "C03 admission pushed used above MaxCost")
                                \cup Flag(r.added /\ it.cost > maxCost, "C03 admitted an item larger than MaxCost")
                                \cup Flag(maxCost - (used + it.cost) >= 0 /\ pol[it.h] = NoCost /\ it.cost <= maxCost
@@ -374,7 +377,8 @@ AppDequeue ==      \* receive from setBuf, evaluate cost, policy critical sectio
                          /\ used' = used + it.cost - pol[it.h]
                          /\ met' = UpdCost(met, pol[it.h], it.cost)
                          /\ raised' = (raised \/ it.cost > pol[it.h])
-                    ELSE UNCHANGED <<pol, used, met, raised>>
+                         /\ lowered' = (lowered \/ it.cost < pol[it.h])
+                    ELSE UNCHANGED <<pol, used, met, raised, lowered>>
                /\ pc' = PcAfterRecv(pc)
                /\ UNCHANGED <<apc, areg, mustMiss, bad>>
           [] it.t = "del" ->
@@ -385,10 +389,10 @@ AppDequeue ==      \* receive from setBuf, evaluate cost, policy critical sectio
                /\ areg' = [item |-> it, victims |-> <<>>]
                /\ apc' = "del_store"
                /\ pc' = PcAfterRecv(pc)
-               /\ UNCHANGED <<mustMiss, bad, raised>>
+               /\ UNCHANGED <<mustMiss, bad, raised, lowered>>
   /\ UNCHANGED <<store, em, lastCleaned, maxCost, door, cnt, sweepQ, sweepNow, creg, now, tickPending, 
                  running, stopq, closed, nextVal, ops, exitCnt, evictCnt, rejectCnt, accepted, refused, 
-                 valKey, waitCover, clearOwed, gets, dropped, lastUpd, clrOverlap>>
+                 valKey, waitCover, clearOwed, gets, dropped, swept0, lastUpd, clrOverlap>>
 
 AfterItem == IF areg.victims # <<>> THEN "victims" ELSE "idle"
 
@@ -404,7 +408,7 @@ AppStoreSet ==     \* lockedMap.Set under the shard lock, keyAdd metric
   /\ UNCHANGED <<lastCleaned, pol, used, maxCost, door, cnt, buf, sendq, areg, sweepQ, sweepNow, pc, creg, 
                  now, tickPending, running, stopq, closed, nextVal, ops, exitCnt, evictCnt, rejectCnt, 
                  accepted, refused, valKey, delOblig, waitCover, mustMiss, clearOwed, gets, dropped, 
-                 lastUpd, clrOverlap, raised, bad>>
+                 lowered, swept0, lastUpd, clrOverlap, raised, bad>>
 
 AppReject ==       \* onReject(i) -> OnReject, OnExit
   /\ apc = "new_rej"
@@ -414,7 +418,7 @@ AppReject ==       \* onReject(i) -> OnReject, OnExit
   /\ UNCHANGED <<store, em, lastCleaned, pol, used, maxCost, door, cnt, buf, sendq, areg, sweepQ, 
                  sweepNow, pc, creg, now, tickPending, running, stopq, closed, met, nextVal, ops, 
                  evictCnt, accepted, refused, valKey, delOblig, waitCover, mustMiss, clearOwed, gets, 
-                 dropped, lastUpd, clrOverlap, raised, bad>>
+                 dropped, lowered, swept0, lastUpd, clrOverlap, raised, bad>>
 
 AppVictim ==       \* store.Del(victim, 0) + onEvict
   /\ apc = "victims"
@@ -427,8 +431,8 @@ AppVictim ==       \* store.Del(victim, 0) + onEvict
      /\ apc' = IF Tail(areg.victims) = <<>> THEN "idle" ELSE "victims"
   /\ UNCHANGED <<lastCleaned, pol, used, maxCost, door, cnt, buf, sendq, sweepQ, sweepNow, pc, creg, now, 
                  tickPending, running, stopq, closed, met, nextVal, ops, rejectCnt, accepted, refused, 
-                 valKey, delOblig, waitCover, mustMiss, clearOwed, gets, dropped, lastUpd, clrOverlap, 
-                 raised, bad>>
+                 valKey, delOblig, waitCover, mustMiss, clearOwed, gets, dropped, lowered, swept0, 
+                 lastUpd, clrOverlap, raised, bad>>
 
 AppDelStore ==     \* store.Del(key, conflict) + onExit of a tombstone
   /\ apc = "del_store"
@@ -442,7 +446,7 @@ AppDelStore ==     \* store.Del(key, conflict) + onExit of a tombstone
   /\ UNCHANGED <<lastCleaned, pol, used, maxCost, door, cnt, buf, sendq, areg, sweepQ, sweepNow, pc, creg, 
                  now, tickPending, running, stopq, closed, met, nextVal, ops, evictCnt, rejectCnt, 
                  accepted, refused, valKey, delOblig, waitCover, mustMiss, clearOwed, gets, dropped, 
-                 lastUpd, clrOverlap, raised, bad>>
+                 lowered, swept0, lastUpd, clrOverlap, raised, bad>>
 
 (* ------------------------------------------------------------------------------------------ *)
 (* expiry sweep (ticker arm of the applier's select; expirationMap.cleanup)                      *)
@@ -459,8 +463,8 @@ SweepGrab ==       \* under the em lock: take whole buckets, advance the frontie
      /\ apc' = IF grabbed = {} THEN "idle" ELSE "sweep_check"
   /\ UNCHANGED <<store, pol, used, maxCost, door, cnt, buf, sendq, areg, pc, creg, now, running, stopq, 
                  closed, met, nextVal, ops, exitCnt, evictCnt, rejectCnt, accepted, refused, valKey, 
-                 delOblig, waitCover, mustMiss, clearOwed, gets, dropped, lastUpd, clrOverlap, raised, 
-                 bad>>
+                 delOblig, waitCover, mustMiss, clearOwed, gets, dropped, lowered, swept0, lastUpd, 
+                 clrOverlap, raised, bad>>
 
 SweepCheck(x) ==   \* code as it was: store.Expiration under RLock, `expr.After(now)` => skip.
                    \* FixAtomic (repair of F4): store.DelExpired - check and delete under one shard lock
@@ -485,10 +489,11 @@ SweepCheck(x) ==   \* code as it was: store.Expiration under RLock, `expr.After(
   /\ UNCHANGED <<lastCleaned, pol, used, maxCost, door, cnt, buf, sendq, sweepNow, pc, creg, now, 
                  tickPending, running, stopq, closed, met, nextVal, ops, exitCnt, evictCnt, rejectCnt, 
                  accepted, refused, valKey, delOblig, waitCover, mustMiss, clearOwed, gets, dropped, 
-                 lastUpd, clrOverlap, raised, bad>>
+                 lowered, swept0, lastUpd, clrOverlap, raised, bad>>
 
 SweepPolDel ==     \* policy.Cost + policy.Del
   /\ apc = "sweep_poldel"
+  /\ swept0' = IF pol[areg.item.h] = 0 THEN swept0 \cup {areg.item.h} ELSE swept0
   /\ LET h == areg.item.h IN
      IF pol[h] # NoCost
        THEN /\ pol' = [pol EXCEPT ![h] = NoCost] /\ used' = used - pol[h]
@@ -498,7 +503,7 @@ SweepPolDel ==     \* policy.Cost + policy.Del
   /\ UNCHANGED <<store, em, lastCleaned, maxCost, door, cnt, buf, sendq, areg, sweepQ, sweepNow, pc, creg, 
                  now, tickPending, running, stopq, closed, nextVal, ops, exitCnt, evictCnt, rejectCnt, 
                  accepted, refused, valKey, delOblig, waitCover, mustMiss, clearOwed, gets, dropped, 
-                 lastUpd, clrOverlap, raised, bad>>
+                 lowered, lastUpd, clrOverlap, raised, bad>>
 
 SweepStoreDel ==   \* code as it was: store.Del(key, conflict) + onEvict.  FixAtomic: only onEvict is left
   /\ apc = "sweep_storedel"
@@ -516,8 +521,8 @@ SweepStoreDel ==   \* code as it was: store.Del(key, conflict) + onEvict.  FixAt
   /\ apc' = IF sweepQ = {} THEN "idle" ELSE "sweep_check"
   /\ UNCHANGED <<lastCleaned, pol, used, maxCost, door, cnt, buf, sendq, areg, sweepQ, sweepNow, pc, creg, 
                  now, tickPending, running, stopq, closed, met, nextVal, ops, rejectCnt, accepted, 
-                 refused, valKey, delOblig, waitCover, mustMiss, clearOwed, gets, dropped, lastUpd, 
-                 clrOverlap, raised>>
+                 refused, valKey, delOblig, waitCover, mustMiss, clearOwed, gets, dropped, lowered, 
+                 swept0, lastUpd, clrOverlap, raised>>
 
 Tick ==            \* the clock advances by one tick; the ticker fires (channel of capacity 1)
   /\ now < MaxTime
@@ -525,7 +530,7 @@ Tick ==            \* the clock advances by one tick; the ticker fires (channel 
   /\ UNCHANGED <<store, em, lastCleaned, pol, used, maxCost, door, cnt, buf, sendq, apc, areg, sweepQ, 
                  sweepNow, pc, creg, running, stopq, closed, met, nextVal, ops, exitCnt, evictCnt, 
                  rejectCnt, accepted, refused, valKey, delOblig, waitCover, mustMiss, clearOwed, gets, 
-                 dropped, lastUpd, clrOverlap, raised, bad>>
+                 dropped, lowered, swept0, lastUpd, clrOverlap, raised, bad>>
 
 (* ------------------------------------------------------------------------------------------ *)
 (* Clear / Close                                                                                *)
@@ -540,8 +545,8 @@ ClearCall(c, kind) ==   \* the call begins; the client blocks in `c.stop <- stru
   /\ clrOverlap' = (InClear \/ \E d \in Clients \ {c} : pc[d] # "idle")
   /\ UNCHANGED <<store, em, lastCleaned, pol, used, maxCost, door, cnt, buf, sendq, apc, areg, sweepQ, 
                  sweepNow, now, tickPending, running, closed, met, nextVal, exitCnt, evictCnt, rejectCnt, 
-                 accepted, refused, valKey, delOblig, waitCover, mustMiss, gets, dropped, lastUpd, raised, 
-                 bad>>
+                 accepted, refused, valKey, delOblig, waitCover, mustMiss, gets, dropped, lowered, swept0, 
+                 lastUpd, raised, bad>>
 
 ClearStop(c) ==         \* the applier takes the stop arm, signals done and exits
   /\ pc[c] = "clr_stop" /\ running /\ apc = "idle" /\ stopq # <<>> /\ Head(stopq) = c
@@ -550,7 +555,7 @@ ClearStop(c) ==         \* the applier takes the stop arm, signals done and exit
   /\ UNCHANGED <<store, em, lastCleaned, pol, used, maxCost, door, cnt, buf, sendq, apc, areg, sweepQ, 
                  sweepNow, creg, now, tickPending, closed, met, nextVal, ops, exitCnt, evictCnt, 
                  rejectCnt, accepted, refused, valKey, delOblig, waitCover, mustMiss, clearOwed, gets, 
-                 dropped, lastUpd, clrOverlap, raised, bad>>
+                 dropped, lowered, swept0, lastUpd, clrOverlap, raised, bad>>
 
 \* everything Clear's drain loop receives: the buffer, then the items of the blocked senders
 DrainItems == buf \o [i \in 1..Len(sendq) |-> creg[sendq[i]]]
@@ -574,8 +579,8 @@ ClearDrain(c) ==        \* the drain loop: markers closed, non-update items pass
         \* discarded, not applied, and the map is wiped only later in the same Clear
   /\ UNCHANGED <<store, em, lastCleaned, pol, used, maxCost, door, cnt, apc, areg, sweepQ, sweepNow, creg, 
                  now, tickPending, running, stopq, closed, met, nextVal, ops, rejectCnt, accepted, 
-                 refused, valKey, waitCover, mustMiss, clearOwed, gets, dropped, lastUpd, clrOverlap, 
-                 raised, bad>>
+                 refused, valKey, waitCover, mustMiss, clearOwed, gets, dropped, lowered, swept0, lastUpd, 
+                 clrOverlap, raised, bad>>
 
 ClearPolicy(c) ==       \* policy.Clear under the policy lock
   /\ pc[c] = "clr_policy"
@@ -585,7 +590,7 @@ ClearPolicy(c) ==       \* policy.Clear under the policy lock
   /\ UNCHANGED <<store, em, lastCleaned, maxCost, buf, sendq, apc, areg, sweepQ, sweepNow, creg, now, 
                  tickPending, running, stopq, closed, met, nextVal, ops, exitCnt, evictCnt, rejectCnt, 
                  accepted, refused, valKey, delOblig, waitCover, mustMiss, clearOwed, gets, dropped, 
-                 lastUpd, clrOverlap, raised, bad>>
+                 lowered, swept0, lastUpd, clrOverlap, raised, bad>>
 
 ClearStore(c) ==        \* store.Clear(onEvict) for every shard, expiryMap.clear
   /\ pc[c] = "clr_store"
@@ -597,8 +602,8 @@ ClearStore(c) ==        \* store.Clear(onEvict) for every shard, expiryMap.clear
   /\ pc' = [pc EXCEPT ![c] = "clr_fin"]
   /\ UNCHANGED <<pol, used, maxCost, door, cnt, buf, sendq, apc, areg, sweepQ, sweepNow, creg, now, 
                  tickPending, running, stopq, closed, met, nextVal, ops, rejectCnt, accepted, refused, 
-                 valKey, delOblig, waitCover, mustMiss, clearOwed, gets, dropped, lastUpd, clrOverlap, 
-                 raised, bad>>
+                 valKey, delOblig, waitCover, mustMiss, clearOwed, gets, dropped, lowered, swept0, 
+                 lastUpd, clrOverlap, raised, bad>>
 
 ClearRestart(c) ==      \* Metrics.Clear, go processItems(); Clear returns
   /\ pc[c] = "clr_fin"
@@ -614,8 +619,8 @@ ClearRestart(c) ==      \* Metrics.Clear, go processItems(); Clear returns
                           "C15 Clear left a Wait blocked")
   /\ UNCHANGED <<store, em, lastCleaned, pol, used, maxCost, door, cnt, buf, sendq, apc, areg, sweepQ, 
                  sweepNow, creg, now, tickPending, stopq, closed, nextVal, ops, exitCnt, evictCnt, 
-                 rejectCnt, accepted, refused, valKey, delOblig, waitCover, mustMiss, clearOwed, lastUpd, 
-                 clrOverlap, raised>>
+                 rejectCnt, accepted, refused, valKey, delOblig, waitCover, mustMiss, clearOwed, lowered, 
+                 swept0, lastUpd, clrOverlap, raised>>
 
 CloseFinish(c) ==       \* second stop/done rendezvous, channels closed, policy goroutine stopped
   /\ pc[c] = "cls_stop" /\ running /\ apc = "idle"
@@ -624,7 +629,7 @@ CloseFinish(c) ==       \* second stop/done rendezvous, channels closed, policy 
   /\ UNCHANGED <<store, em, lastCleaned, pol, used, maxCost, door, cnt, buf, sendq, apc, areg, sweepQ, 
                  sweepNow, creg, now, tickPending, stopq, met, nextVal, ops, exitCnt, evictCnt, rejectCnt, 
                  accepted, refused, valKey, delOblig, waitCover, mustMiss, clearOwed, gets, dropped, 
-                 lastUpd, clrOverlap, raised, bad>>
+                 lowered, swept0, lastUpd, clrOverlap, raised, bad>>
 
 ClosedOp(c, op) ==      \* any call on a closed cache is a no-op
   /\ closed /\ pc[c] = "idle" /\ ops < MaxOps
@@ -633,7 +638,7 @@ ClosedOp(c, op) ==      \* any call on a closed cache is a no-op
   /\ UNCHANGED <<store, em, lastCleaned, pol, used, maxCost, door, cnt, buf, sendq, apc, areg, sweepQ, 
                  sweepNow, pc, creg, now, tickPending, running, stopq, closed, met, nextVal, exitCnt, 
                  evictCnt, rejectCnt, accepted, refused, valKey, delOblig, waitCover, mustMiss, clearOwed, 
-                 gets, dropped, lastUpd, clrOverlap, raised, bad>>
+                 gets, dropped, lowered, swept0, lastUpd, clrOverlap, raised, bad>>
 
 (* ------------------------------------------------------------------------------------------ *)
 Next ==
